@@ -1,7 +1,10 @@
 (* Driver of the extracted pool/engine model (coq/Model/Pool.v) for property C05.
 
    case:  run|guns <cancel> <pool> [<pool> ...]          (see harness/cmd/hC05/main.go)
-   obs:   R=<nil|ctx|f.<cause>|hang> W=<0|1> G=<0|1> C=<created> L=<closed> T=<tokens>
+   obs:   R=<nil|ctx|f.<cause>|hang> W=<0|1> G=<0|1> K=<n|-> N=<n> C=<created> L=<closed> T=<tokens>
+          K = Provider.Run / Aggregator.Run / Gun.Shoot calls of this run that had not returned when Engine.Wait
+              returned (- when it did not return); the model's K is what [outstanding_at_wait] says of the history
+          N = Provider.Run + Aggregator.Run calls made; the model's N is [total_comp_runs] of the final state
 
    The history tokens (the order in which the REAL await loops, pool fronts and Engine.Run
    took their steps, read from the engine's own log) are turned into the model's events and
@@ -145,8 +148,10 @@ let predict (c : string) (obs : string) : string * string * bool =
             (false, "", Printf.sprintf "REJECTED: event %d of the recorded history is not possible in the model" i)
         | Some g ->
             let r = (match g.eng with None -> "hang" | Some er -> res_name er.er_res) in
-            (true, r, Printf.sprintf "R=%s W=%s G=%s C=%d L=%d T=%s" r
+            let k = (match outstanding_at_wait current cfg g0 events with Some k -> string_of_int (int_of_nat k) | None -> "-") in
+            (true, r, Printf.sprintf "R=%s W=%s G=%s K=%s N=%d C=%d L=%d T=%s" r
               (field_of_bool (wait_returns g)) (field_of_bool (terminal g && not (any_panicked g)))
+              k (int_of_nat (total_comp_runs g))
               (int_of_nat (total_created g)) (int_of_nat (total_closed g)) (String.concat "," toks)) in
       let results = List.map (fun k -> describe (run_candidate k)) candidates in
       let pred =
@@ -203,6 +208,9 @@ let predict (c : string) (obs : string) : string * string * bool =
             | [ _; "pre"; o ] when o <> "ok" -> Some ("pre." ^ o) | _ -> None) toks in
           "BAD:wait-hang:" ^ (match pre with [] -> "await-loop" | p :: _ -> p)
         end
+        else if not (spec_stopped_b (nat_of_int (try int_of_string (field of_ "K") with _ -> 0))) then
+          (* Engine.Wait returned while something the run had started was still executing *)
+          Printf.sprintf "BAD:wait-early:started-calls-still-executing n=%s component-runs=%s" (field of_ "K") (field of_ "N")
         else if not o.o_settled then "BAD:goroutines-left"
         else "ok" in
       let nontrivial = all_fails <> [] || List.mem "X0" toks || npools > 1 || cancel <> "none" in
